@@ -48,6 +48,8 @@ class Interp:
         self.data = list(data)
         self.target = target
         self.p = mido.Parser() if target == 'parser' else ParserQueue()
+        # a bystander instance of the same class, fed other bytes in between: instances must not share state
+        self.other = mido.Parser() if target == 'parser' else ParserQueue()
         self.pos = 0
         self.got = []          # retrieved messages in order
         self.fails = []
@@ -110,6 +112,11 @@ class Interp:
         n = max(0, min(n, len(self.data) - self.pos))
         chunk = self.data[self.pos:self.pos + n]
         self._note_feed(n)
+        noise = [0xB3, 0x07, (self.pos * 7) % 128, 0xF0, 0x05]
+        if self.target == 'parser':
+            self.other.feed(noise)
+        else:
+            self.other.put_bytes(noise)
         if self.target == 'parser':
             self.p.feed(_as(cont, chunk))
         else:
